@@ -75,6 +75,102 @@ Proof.
   apply N.eqb_eq in Hab. pose proof (stable_ulen a b Ha Hb Hab). rewrite !blen_cons. split; [reflexivity | lia].
 Qed.
 
+(* ---------- the Chars iterator on valid UTF-8 yields exactly the chars ---------- *)
+Lemma ci_items_valid_aux (n : nat) : forall s, (length s <= n)%nat -> valid_utf8 s = true ->
+  ci_items s = map CIok (utf8_chars s).
+Proof.
+  induction n as [|n IH]; intros s Hl Hv.
+  - destruct s; [reflexivity | cbn in Hl; lia].
+  - destruct s as [|b0 r]; [reflexivity|].
+    cbn [valid_utf8 utf8_chars ci_items] in *. cbn [length] in Hl.
+    destruct (b0 <? 128) eqn:E0.
+    { cbn [map]. f_equal. apply IH; [lia | exact Hv]. }
+    destruct (width2 b0) eqn:W2.
+    { destruct r as [|b1 r1]; [discriminate|]. apply andb_true_iff in Hv. destruct Hv as [Hc Hv]. rewrite Hc.
+      unfold width2 in W2. apply in_range_iff' in W2. rewrite (ltb_t b0 224) by lia.
+      cbn [map]. f_equal. apply IH; [cbn [length] in Hl; lia | exact Hv]. }
+    destruct (width3 b0) eqn:W3.
+    { destruct r as [|b1 [|b2 r2]]; try discriminate.
+      apply andb_true_iff in Hv. destruct Hv as [Hv Hr]. rewrite Hv.
+      unfold width3 in W3. apply in_range_iff' in W3. rewrite (ltb_f b0 224), (ltb_t b0 240) by lia.
+      cbn [map]. f_equal. apply IH; [cbn [length] in Hl; lia | exact Hr]. }
+    destruct (width4 b0) eqn:W4.
+    { destruct r as [|b1 [|b2 [|b3 r3]]]; try discriminate.
+      apply andb_true_iff in Hv. destruct Hv as [Hv Hr]. rewrite Hv.
+      unfold width4 in W4. apply in_range_iff' in W4. rewrite (ltb_f b0 224), (ltb_f b0 240) by lia.
+      cbn [map]. f_equal. apply IH; [cbn [length] in Hl; lia | exact Hr]. }
+    discriminate.
+Qed.
+
+Theorem ci_items_valid s : valid_utf8 s = true -> ci_items s = map CIok (utf8_chars s).
+Proof. apply (ci_items_valid_aux (length s)); lia. Qed.
+
+Lemma zip_all_map_ok a : forall b,
+  zip_all ci_item_eq (map CIok a) (map CIok b) = zip_all ci_char_eq a b.
+Proof.
+  induction a as [|x a IH]; intros [|y b]; try reflexivity. cbn [map zip_all ci_item_eq]. rewrite IH. reflexivity.
+Qed.
+
+Lemma starts_with_ci_valid s p : valid_utf8 s = true -> valid_utf8 p = true ->
+  starts_with_ci s p =
+  if (length s <? length p)%nat then false else zip_all ci_char_eq (utf8_chars p) (utf8_chars s).
+Proof.
+  intros Vs Vp. unfold starts_with_ci. rewrite (ci_items_valid s Vs), (ci_items_valid p Vp), zip_all_map_ok.
+  reflexivity.
+Qed.
+
+(* ---------- a case-sensitive match of a valid needle is a case-insensitive match, whatever the haystack ---------- *)
+Lemma ci_items_app_aux (n : nat) : forall p t, (length p <= n)%nat -> valid_utf8 p = true ->
+  ci_items (p ++ t) = ci_items p ++ ci_items t.
+Proof.
+  induction n as [|n IH]; intros p t Hl Hv.
+  - destruct p; [reflexivity | cbn in Hl; lia].
+  - destruct p as [|b0 r]; [reflexivity|].
+    cbn [valid_utf8] in Hv. cbn [app ci_items]. cbn [length] in Hl.
+    destruct (b0 <? 128). { cbn [app]. f_equal. apply IH; [lia | exact Hv]. }
+    destruct (width2 b0).
+    { destruct r as [|b1 r1]; [discriminate|]. apply andb_true_iff in Hv. destruct Hv as [Hc Hv].
+      cbn [app]. rewrite Hc. cbn [app]. f_equal. apply IH; [cbn [length] in Hl; lia | exact Hv]. }
+    destruct (width3 b0).
+    { destruct r as [|b1 [|b2 r2]]; try discriminate.
+      apply andb_true_iff in Hv. destruct Hv as [Hv Hr]. cbn [app]. rewrite Hv. cbn [app]. f_equal.
+      apply IH; [cbn [length] in Hl; lia | exact Hr]. }
+    destruct (width4 b0).
+    { destruct r as [|b1 [|b2 [|b3 r3]]]; try discriminate.
+      apply andb_true_iff in Hv. destruct Hv as [Hv Hr]. cbn [app]. rewrite Hv. cbn [app]. f_equal.
+      apply IH; [cbn [length] in Hl; lia | exact Hr]. }
+    discriminate.
+Qed.
+
+Lemma ci_items_app p t : valid_utf8 p = true -> ci_items (p ++ t) = ci_items p ++ ci_items t.
+Proof. apply (ci_items_app_aux (length p)); lia. Qed.
+
+Lemma zip_all_eqb_refl l : zip_all N.eqb l l = true.
+Proof. induction l as [|x l IH]; [reflexivity|]. cbn [zip_all]. rewrite N.eqb_refl. exact IH. Qed.
+
+Lemma ci_char_eq_refl c : ci_char_eq c c = true.
+Proof.
+  unfold ci_char_eq. destruct ((c <? 128) && (c <? 128)); [apply N.eqb_refl | apply zip_all_eqb_refl].
+Qed.
+
+Lemma ci_item_eq_refl x : ci_item_eq x x = true.
+Proof. destruct x; cbn [ci_item_eq]; [apply ci_char_eq_refl | apply N.eqb_refl]. Qed.
+
+Lemma zip_all_prefix_refl l r : zip_all ci_item_eq l (l ++ r) = true.
+Proof. induction l as [|x l IH]; [reflexivity|]. cbn [app zip_all]. rewrite ci_item_eq_refl. exact IH. Qed.
+
+Theorem starts_with_cs_ci s p : valid_utf8 p = true -> starts_with_cs s p = true -> starts_with_ci s p = true.
+Proof.
+  intros Vp H. apply starts_with_cs_spec in H. destruct H as [t ->]. unfold starts_with_ci.
+  rewrite (proj2 (Nat.ltb_ge (length (p ++ t)) (length p))) by (rewrite app_length; lia).
+  rewrite (ci_items_app p t Vp). apply zip_all_prefix_refl.
+Qed.
+
+(* ...but not of a needle that ends in the middle of a char of the haystack: starts_with(x"c3a9", x"c3") *)
+Lemma starts_with_cs_ci_needs_valid :
+  starts_with_cs [195; 169] [195] = true /\ starts_with_ci [195; 169] [195] = false.
+Proof. vm_compute. split; reflexivity. Qed.
+
 (* the class of the known finding C28-starts-with-ci-zip *)
 Definition KnownC28_sw_zip (s p : bytes) : bool :=
   negb (forallb len_stable (utf8_chars s) && forallb len_stable (utf8_chars p)).
